@@ -252,6 +252,8 @@ class Judge:
                 mech = f"{assignor}_{kind}"
             if mech == "sticky_owner_not_subscribed" and stale_unsubscribed_claims(ctx["layout"], ctx["subs"], ctx["witness"], flat):
                 mech = "sticky_unsubscribed_previous_owner_gets_partition"
+            if mech == "sticky_kip54_imbalance" and stale_unsubscribed_claims(ctx["layout"], ctx["subs"], ctx["witness"]):
+                mech = "sticky_kip54_imbalance_with_unsubscribed_previous_owner"
             self.last_problems.append(mech)
             w = dict(ctx["witness"])
             w.setdefault("layout", jsonable_layout(ctx["layout"]))
@@ -536,8 +538,26 @@ def random_case(rng):
 # shrinking a failing case (same mechanism must keep firing)
 # ------------------------------------------------------------------------------------------
 
+def _bad_without(bad, member=None, topic=None):
+    if not bad:
+        return None
+    out = {}
+    for r, specs in bad.items():
+        ns = {}
+        for m, spec in specs.items():
+            if m == member:
+                continue
+            if isinstance(spec, dict) and topic is not None:
+                spec = dict(spec, partitions=[tp for tp in spec["partitions"] if tp[0] != topic])
+            ns[m] = spec
+        if ns:
+            out[r] = ns
+    return out or None
+
+
 def _variants(case):
     rounds = case["rounds"]
+    bad = case.get("bad_userdata")
     if len(rounds) > 1:
         yield dict(case, rounds=rounds[:-1])
         yield dict(case, rounds=rounds[1:], bad_userdata=None)
@@ -554,7 +574,7 @@ def _variants(case):
                 break
             nr.append({"layout": r["layout"], "subs": s})
         if ok:
-            yield dict(case, rounds=nr)
+            yield dict(case, rounds=nr, bad_userdata=_bad_without(bad, member=m))
     topics = sorted({t for r in rounds for t in r["layout"]})
     for t in topics:
         nr = []
@@ -566,12 +586,16 @@ def _variants(case):
                 break
             nr.append({"layout": {k: v for k, v in r["layout"].items() if k != t}, "subs": s})
         if ok:
-            yield dict(case, rounds=nr)
+            yield dict(case, rounds=nr, bad_userdata=_bad_without(bad, topic=t))
     for i, r in enumerate(rounds):
         for t, p in r["layout"].items():
             if p:
                 nl = dict(r["layout"])
                 nl[t] = list(p)[:-1]
+                yield dict(case, rounds=rounds[:i] + [{"layout": nl, "subs": r["subs"]}] + rounds[i + 1:])
+            if p is None:
+                nl = dict(r["layout"])
+                nl[t] = []
                 yield dict(case, rounds=rounds[:i] + [{"layout": nl, "subs": r["subs"]}] + rounds[i + 1:])
         for m, v in r["subs"].items():
             if len(v) > 1:
@@ -579,39 +603,67 @@ def _variants(case):
                     ns = dict(r["subs"])
                     ns[m] = [y for y in v if y != x]
                     yield dict(case, rounds=rounds[:i] + [{"layout": r["layout"], "subs": ns}] + rounds[i + 1:])
-    if case.get("bad_userdata"):
-        yield dict(case, bad_userdata=None)
+    for r, specs in (bad or {}).items():
+        for m, spec in specs.items():
+            nb = {k: dict(v) for k, v in bad.items()}
+            del nb[r][m]
+            yield dict(case, bad_userdata={k: v for k, v in nb.items() if v} or None)
+            if isinstance(spec, dict):
+                for i in range(len(spec["partitions"])):
+                    nb = {k: dict(v) for k, v in bad.items()}
+                    nb[r][m] = dict(spec, partitions=spec["partitions"][:i] + spec["partitions"][i + 1:])
+                    yield dict(case, bad_userdata=nb)
     if case.get("wire"):
         yield dict(case, wire=False)
 
 
-def shrink(lib, case, mechanism, budget_s=20.0):
+def _fires(lib, case, mechanism):
+    global JUDGE
+    JUDGE = Judge()
+    try:
+        fired = run_case(lib, case)
+    except Exception:  # noqa: BLE001
+        return None
+    if mechanism not in fired:
+        return None
+    for viol in JUDGE.violations:
+        if viol["mechanism"] == mechanism:
+            return viol
+    return None
+
+
+def shrink(lib, viol, budget_s=20.0):
+    """Greedy reduction of a failing case; the same mechanism must keep firing.  First tries the
+    'direct' form: only the failing round, with every member's user data written out explicitly."""
     global JUDGE
     saved = JUDGE
     t0 = time.time()
+    mechanism = viol["mechanism"]
+    w = viol["witness"]
+    case = w["case"]
+    best = viol
     try:
+        claims = w.get("user_data_claims")
+        if claims is not None and "round" in w:
+            rnd = case["rounds"][w["round"]]
+            direct = {"rounds": [rnd], "wire": False}
+            if claims:
+                direct["bad_userdata"] = {"0": claims}
+            got = _fires(lib, direct, mechanism)
+            if got is not None:
+                case, best = direct, got
         changed = True
         while changed and time.time() - t0 < budget_s:
             changed = False
             for v in _variants(case):
                 v = {k: x for k, x in v.items() if x is not None}
-                JUDGE = Judge()
-                try:
-                    fired = run_case(lib, v)
-                except Exception:  # noqa: BLE001
-                    continue
-                if mechanism in fired:
-                    case = v
-                    changed = True
+                got = _fires(lib, v, mechanism)
+                if got is not None:
+                    case, best, changed = v, got, True
                     break
                 if time.time() - t0 > budget_s:
                     break
-        JUDGE = Judge()
-        run_case(lib, case)
-        for viol in JUDGE.violations:
-            if viol["mechanism"] == mechanism:
-                return viol
-        return None
+        return best
     finally:
         JUDGE = saved
 
@@ -642,10 +694,8 @@ def _finish(lib, res, t0):
     out = []
     for mech, vs in sorted(by_mech.items()):
         best = min(vs, key=lambda v: len(json.dumps(v["witness"], default=str)))
-        if len(json.dumps(best["witness"], default=str)) > 600 and "case" in best["witness"]:
-            small = shrink(lib, best["witness"]["case"], mech)
-            if small is not None:
-                best = small
+        if "case" in best["witness"]:
+            best = shrink(lib, best)
         out.append(best)
         res["counters"][f"violating_evaluations_{mech}"] = len(vs)
     res["violations"] = out
